@@ -261,6 +261,11 @@ PLANS["C23"] = {
          "quick": {"cases": 3, "secs": 400, "hard_timeout": 1500}, "thorough": {"cases": 80, "secs": 3000, "hard_timeout": 6000}},
         {"sub": "os-asan", "cfg": "asan", "sanitizer": "asan", "env": ASAN_ENV, "thorough": {"cases": 6000, "secs": 900}},
         {"sub": "fault-asan", "cfg": "asan", "sanitizer": "asan", "env": ASAN_ENV, "thorough": {"cases": 20000, "secs": 900}},
+        # real threads interpreted by Miri: data races and UB in salsa's unsafe code under 12 interpreter seeds (different
+        # preemption points and weak-memory outcomes), 2 failpoint profiles per case
+        {"sub": "os-miri", "cfg": "miri", "sanitizer": "miri", "max_shards": 1, "multi_json": True,
+         "env": {"MIRIFLAGS": "-Zmiri-disable-isolation -Zmiri-many-seeds=0..12", "SVH_SCHEDULES": "2"},
+         "thorough": {"cases": 2, "secs": 3000, "hard_timeout": 6000}},
         {"sub": "mem-memcheck", "cfg": "native", "sanitizer": "memcheck",
          "wrap": ["valgrind", "-q", "--error-exitcode=9", "--errors-for-leak-kinds=none", "--leak-check=no"],
          "thorough": {"cases": 320, "secs": 900}},
